@@ -113,6 +113,14 @@ var earlyTable = []earlyT{
 	{"x\ra\n", "accept", "-", "7.3 / 7.9.1: ASI after CR"},
 	{"new\ra\n[ this ]", "accept", "-", "7.3"},
 	{"var a = 1 var b", "reject", "-", "7.9.1"},
+	{"var x = .5\nvar y = 2", "accept", "-", "7.9.1: ASI after a dot-leading numeric literal"},
+	{"r = i + .5\n++i", "accept", "-", "7.9.1"},
+	{"x = .25e1\ny", "accept", "-", "7.9.1"},
+	{"x = 5.\ny", "accept", "-", "7.9.1"},
+	{"x = 0x1F\ny", "accept", "-", "7.9.1"},
+	{"x = 's'\ny", "accept", "-", "7.9.1"},
+	{"x = /re/g\ny", "accept", "-", "7.9.1"},
+	{"x = /re/\ny", "accept", "-", "7.9.1"},
 	{"var a,", "reject", "-", "12.2"},
 	{"var", "reject", "-", "12.2"},
 	{"function (){}", "reject", "-", "13: FunctionDeclaration needs a name"},
